@@ -12,6 +12,7 @@ package main
 import (
 	"encoding/json"
 	"fmt"
+	"time"
 
 	metav1 "k8s.io/apimachinery/pkg/apis/meta/v1"
 	"k8s.io/apiserver/pkg/authentication/user"
@@ -38,6 +39,8 @@ type c14Case struct {
 	Ready   []int   `json:"ready"`
 	Disabled []int  `json:"disabled"` // servers carrying disabled=true in the spec
 	Resync  int     `json:"resync"`   // rr: after every <resync> picks, Sync again (same servers and flags), 0 = never
+	Writes  int     `json:"writes"`   // rr: every <writes>-th pick runs WHILE a status write that changes nothing
+	//                                    (UpdateStatus(true) on a healthy endpoint) holds the endpoint's status lock
 	Subset  []int   `json:"subset"` // explicit upstream subset of the first policy (may be empty)
 	All     bool    `json:"all"`    // rr: use the policy without subset
 	N       int     `json:"n"`
@@ -152,6 +155,46 @@ func onePick(ci *clusters.ClusterInfo, all bool) pickObs {
 	return o
 }
 
+// pickDuringWrite: the health checker records an UNCHANGED result for endpoint e (the real
+// EndpointInfo.UpdateStatus -> endpointStatus.SetStatus, instrumented so that it can be parked while it holds
+// the status lock) and a request of the policy is picked at that very moment.  The write changes neither
+// `healthy` nor `disabled`, so the ready set is what it was and the pick must be the next round-robin turn.
+func pickDuringWrite(ci *clusters.ClusterInfo, all bool, e int) pickObs {
+	info, ok := ci.Endpoints.Load(epName(e))
+	if !ok {
+		return onePick(ci, all)
+	}
+	s := newCoSched()
+	s.Go(func() { info.UpdateStatus(true, "", "") })
+	clusters.VerifYield = s.Yield
+	s.launch(s.gs[0]) // parked in front of SetStatus' Lock
+	s.step(0)         // Lock taken; parked in front of the deferred Unlock: the write is in progress
+	done := make(chan pickObs, 1)
+	go func() {
+		defer func() {
+			if r := recover(); r != nil {
+				done <- pickObs{R: -1, Order: []int{}}
+			}
+		}()
+		done <- onePick(ci, all)
+	}()
+	var o pickObs
+	got := false
+	select {
+	case o = <-done: // the pick did not wait for the writer
+		got = true
+	case <-time.After(25 * time.Millisecond): // the pick waits for the writer (RLock)
+	}
+	for !s.gs[0].done {
+		s.step(0) // Unlock; UpdateStatus returns
+	}
+	if !got {
+		o = <-done
+	}
+	clusters.VerifYield = nil
+	return o
+}
+
 func parseU64(s string) uint64 {
 	var v uint64
 	_, err := fmt.Sscanf(s, "%d", &v)
@@ -187,6 +230,22 @@ func runC14(raw json.RawMessage) interface{} {
 			}
 		}
 		out := make([]pickObs, 0, c.N)
+		readyOfSubset := []int{} // healthy, enabled endpoints the policy can use: the targets of the no-op writes
+		{
+			dis := map[int]bool{}
+			for _, d := range c.Disabled {
+				dis[d] = true
+			}
+			cand := c.Subset
+			if c.All || len(cand) == 0 {
+				cand = c.Servers
+			}
+			for _, e := range cand {
+				if info, ok := ci.Endpoints.Load(epName(e)); ok && info.IsReady() && !dis[e] {
+					readyOfSubset = append(readyOfSubset, e)
+				}
+			}
+		}
 		for i := 0; i < c.N; i++ {
 			if c.Resync > 0 && i > 0 && i%c.Resync == 0 {
 				// the informer re-delivers the object, or somebody edits an unrelated field: servers and
@@ -196,6 +255,11 @@ func runC14(raw json.RawMessage) interface{} {
 					edit = i / c.Resync
 				}
 				must(ci.Sync(c14Cluster(c.Servers, c.Subset, c.Disabled, edit)))
+			}
+			if c.Writes > 0 && i%c.Writes == c.Writes-1 && len(readyOfSubset) > 0 {
+				e := readyOfSubset[(i/c.Writes)%len(readyOfSubset)]
+				out = append(out, pickDuringWrite(ci, c.All, e))
+				continue
 			}
 			out = append(out, onePick(ci, c.All))
 		}
